@@ -128,7 +128,8 @@ def boxed_model(c, extra=(), box=8, timeout_ms=3000):
     cs = c.base_constraints() + list(extra)
     for a in cs:
         s.add(a)
-    for a in getattr(c, "axioms", []):
+    from symx import axioms as _axm
+    for a in _axm.instances(cs, c):
         s.add(a)
     s.push()
     k = 0
@@ -151,9 +152,11 @@ def spread_model(c, seed=0, timeout_ms=3000):
     rnd = random.Random(seed)
     s = z3.Solver()
     s.set("timeout", timeout_ms)
-    for a in c.base_constraints():
+    from symx import axioms as _axm
+    bcs = c.base_constraints()
+    for a in bcs:
         s.add(a)
-    for a in getattr(c, "axioms", []):
+    for a in _axm.instances(bcs, c):
         s.add(a)
     names = list(c.symbols.items())
     # try to pin every symbol near a random dyadic value; drop pins that make it unsat
